@@ -50,6 +50,16 @@ CLAIMS = {
         "note": "as C03; termination of the caller's loop follows by induction on the remaining input (paper argument)",
         "technique": "bounded model checking of the real code (Kani/CBMC): assume-guarantee decomposition, two-execution (relational) harness for monotonicity",
     },
+    "C17": {
+        "text": "The real AmendedRequest::analyze / verify_version are decided over the complete table 5 versions x 9 methods x "
+                "despite-flag x with/without-body constructor (both directions: rejected exactly for the listed classes, accepted "
+                "otherwise), and Call::write on a rejected request is shown to emit nothing, stay un-analysed / not ready and fail "
+                "again. Header-caused rejections (duplicate / non-text Host, duplicate / non-numeric Content-Length) are decided "
+                "per menu cell in the thorough tier only (each cell costs ~10 min of symbolic execution of http's header iterators).",
+        "design_ref": "DESIGN.md §3 C17",
+        "note": "standard methods only; header menu of 15 cells (thorough); version 1.1 in header cells",
+        "technique": "bounded model checking of the real code (Kani/CBMC): exhaustive symbolic table over finite menus",
+    },
 }
 
 PENDING = "check not built yet in this session (planned, see DESIGN.md §3); nothing is claimed"
